@@ -49,7 +49,7 @@ func TestVerifC13(t *testing.T) {
 	}
 	bodies := []string{
 		"ws://backend.verif:1234/socket?x=1", "ws://evil.example/x", "wss://evil.example:443/x?y=2#frag", "//evil.example/p", "/just/a/path?q=1", "", "?only=query",
-		"x:y", "mailto:a@b", "ws:opaque-part", "javascript:alert(1)", "http:relative/path", "ws://u:p@evil.example/x", "ws://user@evil.example/x",
+		"x:y", "mailto:a@b", "ws:opaque-part", "a:b:c", "urn:uuid:1234", "x:y:z?q=1", "a:b:c:d", "x:7/ws", "ws:7", "x:.evil.example/ws", "x::8081/ws", "x:@evil.example", "x:y#frag", "x:%2F%2Fevil.example/", "relative/path", "?only=query", "#frag", "javascript:alert(1)", "http:relative/path", "ws://u:p@evil.example/x", "ws://user@evil.example/x",
 		"ws://[::1]:80/x", "ws://[fe80::1%25eth0]/x", "ws://evil.example:0/x", "ws://evil.example:65536/x", "ws://evil.example:/x", "ws://evil.example/a%2Fb/c%20d?z=%26",
 		"ws://evil.example/../../etc", "ws://evil.example", "ws://evil.example?x", "ws://evil.example#f", "WS://EVIL.EXAMPLE/X", "ws://evil.example/x y", "ws:///nohost",
 		"%zz", "ws://evil.example/%zz", "http://[::1", "\x00\x01\x02", "ws://ev il/x", "ws://evil.example/\r\nHost: x", strings.Repeat("a", 5000), "ws://" + strings.Repeat("h", 300) + "/x",
